@@ -24,6 +24,7 @@ func checkC18(c *Ctx) {
 	r182(c, "R18.2 lock-order-and-blocking-under-lock")
 	r183(c)
 	rNoLockCopies(c, "R18.4 no-lock-copies")
+	rNilOnErrorResults(c, "R18.5 nil-on-error-results-checked-before-use")
 }
 
 // constructionPhase: functions in which the receiver / object written is not yet shared with another goroutine.
@@ -894,4 +895,190 @@ func rNoLockCopies(c *Ctx, rule string) {
 		}
 	}
 	c.note("lock-copy rule: %d functions examined", n)
+}
+
+// R18.5 "never panics": the pointer a module function returns together with an error is nil whenever the error is not
+// (decided per function from its return statements); at every call the pointer is dereferenced - a field, a method of
+// its type, an argument the callee dereferences - only where the error is known to be nil or the pointer known not to
+// be, also when it travels round a loop first (`req, err = t.StartRequest(req)` in a retry loop hands the nil of a
+// refused attempt to the next one).
+func rNilOnErrorResults(c *Ctx, rule string) {
+	c.floor(rule, 3)
+	isErr := func(t types.Type) bool { return typeString(t) == "error" }
+	// summary: result i of f is nil on every error return
+	nilOnErr := map[*ssa.Function][]bool{}
+	for _, f := range c.modFuncs {
+		res := f.Signature.Results()
+		if res.Len() < 2 || !isErr(res.At(res.Len()-1).Type()) || len(f.Blocks) == 0 {
+			continue
+		}
+		flags := make([]bool, res.Len()-1)
+		any := false
+		for i := range flags {
+			if _, ok := res.At(i).Type().Underlying().(*types.Pointer); ok {
+				flags[i] = true
+				any = true
+			}
+		}
+		if !any {
+			continue
+		}
+		nErr := 0
+		for _, rc := range retCases(f) {
+			if len(rc.vals) != res.Len() {
+				continue
+			}
+			e := rc.vals[len(rc.vals)-1]
+			if isNilConst(e) {
+				continue
+			}
+			// an error return (or one that may be): the pointer must be the nil constant
+			if known, _ := nilKnowledgeOf(rc.conds, sameAs(e)); known {
+				continue
+			}
+			nErr++
+			for i := range flags {
+				if flags[i] && !isNilConst(rc.vals[i]) {
+					flags[i] = false
+				}
+			}
+		}
+		if nErr > 0 {
+			nilOnErr[f] = flags
+		}
+	}
+	// does callee f dereference its parameter j?
+	derefs := func(f *ssa.Function, j int) bool {
+		if f == nil || len(f.Blocks) == 0 || j >= len(f.Params) {
+			return false
+		}
+		p := f.Params[j]
+		if p.Referrers() == nil {
+			return false
+		}
+		for _, r := range *p.Referrers() {
+			switch x := r.(type) {
+			case *ssa.FieldAddr:
+				return x.X == ssa.Value(p)
+			case *ssa.UnOp:
+				if x.Op == token.MUL {
+					return true
+				}
+			case ssa.CallInstruction:
+				cc := x.Common()
+				if sc := cc.StaticCallee(); sc != nil && sc.Signature.Recv() != nil && len(cc.Args) > 0 && cc.Args[0] == ssa.Value(p) {
+					if _, isPtr := sc.Signature.Recv().Type().(*types.Pointer); isPtr && !c.inModule(sc) {
+						return true // a method of a library type on a nil pointer
+					}
+				}
+			}
+		}
+		return false
+	}
+	nSites := 0
+	for _, fn := range c.modFuncs {
+		for _, b := range fn.Blocks {
+			for _, in := range b.Instrs {
+				call, ok := in.(*ssa.Call)
+				if !ok {
+					continue
+				}
+				f := call.Call.StaticCallee()
+				flags, ok := nilOnErr[f]
+				if !ok || call.Referrers() == nil {
+					continue
+				}
+				var errV ssa.Value
+				ptrs := map[int]*ssa.Extract{}
+				for _, r := range *call.Referrers() {
+					if ex, ok := r.(*ssa.Extract); ok {
+						if ex.Index == len(flags) {
+							errV = ex
+						} else if ex.Index < len(flags) && flags[ex.Index] {
+							ptrs[ex.Index] = ex
+						}
+					}
+				}
+				if errV == nil || len(ptrs) == 0 {
+					continue
+				}
+				nSites++
+				safeWith := func(conds []condEdge, v ssa.Value) bool {
+					if isNil, _ := nilKnowledgeOf(conds, sameAs(errV)); isNil {
+						return true
+					}
+					_, nonNil := nilKnowledgeOf(conds, sameAs(v))
+					return nonNil
+				}
+				for _, ex := range ptrs {
+					bad := ""
+					var at ssa.Instruction
+					seen := map[ssa.Value]bool{}
+					work := []ssa.Value{ex}
+					for len(work) > 0 && bad == "" {
+						v := work[len(work)-1]
+						work = work[:len(work)-1]
+						if seen[v] || v.Referrers() == nil {
+							continue
+						}
+						seen[v] = true
+						for _, r := range *v.Referrers() {
+							if phi, ok := r.(*ssa.Phi); ok {
+								for k, e := range phi.Edges {
+									if e != v {
+										continue
+									}
+									pred := phi.Block().Preds[k]
+									conds := dominatingConds(pred)
+									if len(pred.Instrs) > 0 {
+										if ifi, isIf := pred.Instrs[len(pred.Instrs)-1].(*ssa.If); isIf && pred.Succs[0] != pred.Succs[1] {
+											conds = append(conds, condEdge{cond: ifi.Cond, taken: pred.Succs[0] == phi.Block(), ifIn: ifi})
+										}
+									}
+									if !safeWith(conds, v) {
+										work = append(work, phi)
+									}
+								}
+								continue
+							}
+							deref := false
+							switch x := r.(type) {
+							case *ssa.FieldAddr:
+								deref = x.X == v
+							case *ssa.UnOp:
+								deref = x.Op == token.MUL && x.X == v
+							case ssa.CallInstruction:
+								cc := x.Common()
+								if sc := cc.StaticCallee(); sc != nil {
+									for j, a := range cc.Args {
+										if a != v {
+											continue
+										}
+										if j == 0 && sc.Signature.Recv() != nil && !c.inModule(sc) {
+											if _, isPtr := sc.Signature.Recv().Type().(*types.Pointer); isPtr {
+												deref = true
+											}
+										} else if c.inModule(sc) && derefs(sc, j) {
+											deref = true
+										}
+									}
+								}
+							}
+							if deref && !safeWith(dominatingConds(r.Block()), v) {
+								bad = fmt.Sprintf("%s dereferenced at %s where neither the error is known to be nil nor the pointer to be non-nil", v.Name(), c.pos(r.Pos()))
+								at = r
+							}
+						}
+					}
+					pos := call.Pos()
+					if at != nil && at.Pos().IsValid() {
+						pos = at.Pos()
+					}
+					c.ob(rule, fmt.Sprintf("%s/result-%d-of-%s-used-only-where-the-error-is-nil", fname(outer(fn)), ex.Index, fname(f)), pos, bad == "", true,
+						"the result is nil whenever the error is not: "+bad)
+				}
+			}
+		}
+	}
+	c.ob(rule, "nil-on-error-call-sites-examined", token.NoPos, nSites >= 3, false, fmt.Sprintf("%d call sites of module functions that return (pointer, error) with the pointer nil on error", nSites))
 }
